@@ -76,3 +76,58 @@ package keystore
 //@   props C06 C14
 //@   safety
 //@   at call MutableKeyRing.DestroyKey : assert recv == ring && arg[0] == ret(MutableKeyRing.CurrentKey)[0] && ret(MutableKeyRing.CurrentKey)[1] == nil
+
+// ---- Export / import bundles (C18), keystore v2 ---------------------------------------------------------------------
+// The bundle's data is what the key store's ExportKeyRings produced under a cryptosuite built from freshly generated
+// access keys, and the access keys handed back are the serialization of those same keys.
+//@ func (store *KeyBackuper) Export(exportIDs []keystoreV1.ExportID, mode keystoreV1.ExportMode) (backup *keystoreV1.KeysBackup, err error)
+//@   props C18
+//@   safety
+//@   noinline prepareExportEncryptionKeys
+//@   ensures bundle-from-keystore-export: err == nil ==> backup != nil && sameslice(backup.Data, ret(BackupKeystore.ExportKeyRings)[0]) && sameslice(backup.Keys, ret(prepareExportEncryptionKeys)[0])
+//@   ensures whole-or-nothing: err != nil ==> backup == nil
+//@   loop 0 step one-ring-per-id: len(exportPaths) <= len(prev(exportPaths)) + 1
+//@          step storage-sym-path: exportID.KeyKind == keystoreV1.KeySymmetric ==> len(exportPaths) == len(prev(exportPaths)) + 1 && exportPaths[len(exportPaths)-1] == "client/" + string(exportID.ContextID) + "/storage-sym"
+//@          step hmac-path: exportID.KeyKind == keystoreV1.KeySearch ==> len(exportPaths) == len(prev(exportPaths)) + 1 && exportPaths[len(exportPaths)-1] == "client/" + string(exportID.ContextID) + "/hmac-sym"
+//@          step storage-path: exportID.KeyKind == keystoreV1.KeyStoragePrivate || exportID.KeyKind == keystoreV1.KeyStoragePublic ==> len(exportPaths) == len(prev(exportPaths)) + 1 && exportPaths[len(exportPaths)-1] == "client/" + string(exportID.ContextID) + "/storage"
+//@          step poison-path: exportID.KeyKind == keystoreV1.KeyPoisonPrivate || exportID.KeyKind == keystoreV1.KeyPoisonPublic ==> len(exportPaths) == len(prev(exportPaths)) + 1 && exportPaths[len(exportPaths)-1] == "poison-record"
+//@   at call BackupKeystore.ExportKeyRings : assert recv == store.storage && sameslice(arg[0], exportPaths) && arg[1] == ret(prepareExportEncryptionKeys)[1] && ret(prepareExportEncryptionKeys)[2] == nil && arg[2] == mode
+
+//@ func prepareExportEncryptionKeys() (serialized []byte, suite *crypto.KeyStoreSuite, err error)
+//@   props C18
+//@   safety
+//@   ensures err == nil ==> suite == ret(crypto.NewSCellSuite)[0] && sameslice(serialized, ret(SerializedKeys.Marshal)[0])
+//@   ensures err != nil ==> suite == nil && serialized == nil
+//@   at call SerializedKeys.Marshal : assert recv == ret(NewMasterKeys)[0] && ret(NewMasterKeys)[1] == nil
+//@   at call crypto.NewSCellSuite : assert sameslice(arg[0], ret(NewMasterKeys)[0].Encryption) && sameslice(arg[1], ret(NewMasterKeys)[0].Signature)
+
+// The cryptosuite that opens the bundle is built from the access keys carried by the backup and nothing else; a bundle
+// the key store rejects yields an error and no descriptions.
+//@ func (store *KeyBackuper) Import(backup *keystoreV1.KeysBackup) (descs []keystoreV1.KeyDescription, err error)
+//@   props C18
+//@   safety
+//@   noinline *
+//@   ensures rejected-bundle: called(BackupKeystore.ImportKeyRings) && ret(BackupKeystore.ImportKeyRings)[1] != nil ==> err == ret(BackupKeystore.ImportKeyRings)[1] && descs == nil
+//@   ensures bad-access-keys: ret(SerializedKeys.Unmarshal)[0] != nil ==> err != nil && descs == nil && !called(BackupKeystore.ImportKeyRings)
+//@   at call SerializedKeys.Unmarshal : assert sameslice(arg[0], backup.Keys)
+//@   at call crypto.NewSCellSuite : assert sameslice(arg[0], importEncryptionKeys.Encryption) && sameslice(arg[1], importEncryptionKeys.Signature) && ret(SerializedKeys.Unmarshal)[0] == nil
+//@   at call BackupKeystore.ImportKeyRings : assert recv == store.storage && sameslice(arg[0], backup.Data) && arg[1] == ret(crypto.NewSCellSuite)[0] && ret(crypto.NewSCellSuite)[1] == nil && isnil(arg[2])
+
+// Migration from keystore v1: every purpose is imported through the operation of the same purpose with the key's own
+// id; an unknown purpose imports nothing; exported material is wiped only on the way out.
+//@ func (s *ServerKeyStore) ImportKeyFileV1(oldKeyStore filesystemV1.KeyExport, key filesystemV1.ExportedKey) (err error)
+//@   props C18
+//@   noinline *
+//@   ensures unknown-purpose-imports-nothing: key.KeyContext.Purpose != keystore.PurposePoisonRecordKeyPair && key.KeyContext.Purpose != keystore.PurposeStorageClientKeyPair && key.KeyContext.Purpose != keystore.PurposeAuditLog && key.KeyContext.Purpose != keystore.PurposeSearchHMAC && key.KeyContext.Purpose != keystore.PurposePoisonRecordSymmetricKey && key.KeyContext.Purpose != keystore.PurposeStorageClientSymmetricKey ==> err == ErrUnknownPurpose && !called(KeyExport.ExportKeyPair) && !called(KeyExport.ExportSymmetricKey)
+//@   ensures export-failure-propagates: (called(KeyExport.ExportKeyPair) && ret(KeyExport.ExportKeyPair)[1] != nil) || (called(KeyExport.ExportSymmetricKey) && ret(KeyExport.ExportSymmetricKey)[1] != nil) ==> err != nil
+//@   at call KeyExport.ExportKeyPair : assert arg[0] == key
+//@   at call KeyExport.ExportSymmetricKey : assert arg[0] == key
+//@   at call ServerKeyStore.savePoisonKeyPair : assert key.KeyContext.Purpose == keystore.PurposePoisonRecordKeyPair && arg[0] == ret(KeyExport.ExportKeyPair)[0]
+//@   at call ServerKeyStore.SaveDataEncryptionKeys : assert key.KeyContext.Purpose == keystore.PurposeStorageClientKeyPair && arg[1] == ret(KeyExport.ExportKeyPair)[0] && sameslice(arg[0], ret(keystore.GetKeyContextFromContext)[0])
+//@   at call ServerKeyStore.importLogKey : assert key.KeyContext.Purpose == keystore.PurposeAuditLog && sameslice(arg[0], ret(KeyExport.ExportSymmetricKey)[0])
+//@   at call ServerKeyStore.importHmacKey : assert key.KeyContext.Purpose == keystore.PurposeSearchHMAC && sameslice(arg[1], ret(KeyExport.ExportSymmetricKey)[0]) && sameslice(arg[0], ret(keystore.GetKeyContextFromContext)[0])
+//@   at call ServerKeyStore.importPoisonRecordSymmetricKey : assert key.KeyContext.Purpose == keystore.PurposePoisonRecordSymmetricKey && sameslice(arg[0], ret(KeyExport.ExportSymmetricKey)[0])
+//@   at call ServerKeyStore.importClientIDSymmetricKey : assert key.KeyContext.Purpose == keystore.PurposeStorageClientSymmetricKey && sameslice(arg[1], ret(KeyExport.ExportSymmetricKey)[0]) && sameslice(arg[0], ret(keystore.GetKeyContextFromContext)[0])
+//@   at call utils.ZeroizeKeyPair : assert exiting
+//@   at call utils.ZeroizeSymmetricKey : assert exiting
+//@   at call keystore.GetKeyContextFromContext : assert arg[0] == key.KeyContext
